@@ -55,9 +55,19 @@ void adapter_exec(Ev *ev)
     /* endpoint flavours (driver.h): the sink keeps its whole-chunk style when a sink refusal is scheduled by call number */
     Source source; Sink sink; FlavOSource fo; FlavSink fk;
     flav_osource_init(&source, &fo, src_octet, &s, harness_flavour & 1);
-    flav_sink_init(&sink, &fk, snk_chunk, &k, k.at ? 0 : harness_flavour >> 1);
+    flav_sink_init(&sink, &fk, snk_chunk, &k, k.at ? 0 : (harness_flavour % 6) >> 1);
     RFC1055Context ctx;
     rfc1055_context_init(&ctx, sof);
+    if (harness_flavour >= 6 && !isrun) {
+        /* a context that has been used before: one frame (containing both control octets) encoded and thrown away */
+        static const unsigned char pre[3] = { 192, 219, 7 };
+        Src ps = { pre, 3, 0, 0, 0, 0 };
+        unsigned char scratch[16];
+        Snk pk = { scratch, 0, sizeof scratch, 0, 0, 0, 0 };
+        Source psrc = OCTET_SOURCE_INIT(src_octet, &ps);
+        Sink psnk = CHUNK_SINK_INIT(snk_chunk, &pk);
+        (void)rfc1055_encode(&ctx, &psrc, &psnk);
+    }
     if (isrun) {
         int at = ev->no;
         long long calls = 0;
